@@ -58,7 +58,7 @@ def write(prop, tier, seed, results, obligations, discharged, known_hits, violat
         r0 = rs[0]
         samples.append({"obligation": name, "paths": len(rs), "variant": r0["variant"], "verdict": r0["verdict"], "hypotheses": r0["hyps"], "forall_instances": r0["instances"], "seconds": r0["seconds"], "backend": r0["backend"]})
     known_names = [n for n, _ in known_hits]
-    n_ob = len(obligations) - len(known_names)
+    n_ob = len(obligations) - len([n for n in known_names if n in obligations])
     extra_assumptions = []
     trusted = []
     bounded = []
